@@ -150,7 +150,22 @@ async fn run_case(i: usize, case: Value, seed: u64, variant_dbs: usize, only_rul
             }
             let st = cdb.ctx.state();
             executions += 1;
-            match exec_logical(&st, p).await {
+            // each execution in its own task: a panic of the engine while executing one plan (e.g. a plan only a
+            // non-default rule list produces) is an observation about that plan, not the end of the case
+            let p2 = p.clone();
+            let r = match tokio::spawn(async move { exec_logical(&st, &p2).await }).await {
+                Ok(r) => r,
+                Err(e) => {
+                    let msg = if e.is_panic() {
+                        let pn = e.into_panic();
+                        pn.downcast_ref::<String>().cloned().or_else(|| pn.downcast_ref::<&str>().map(|s| s.to_string())).unwrap_or_else(|| "panic".into())
+                    } else {
+                        format!("{e}")
+                    };
+                    Err(format!("exec: PANIC: {msg}"))
+                }
+            };
+            match r {
                 Ok(o) => {
                     if phys[pi].is_null() {
                         phys[pi] = json!({"names": o.names, "types": o.types});
